@@ -491,6 +491,35 @@ pub fn run_c16(ctx: &mut Ctx) {
             }
         }
     }
+    {
+        // long and wide values: every structural character inside, at byte lengths around the powers of
+        // two and beyond, made of 1-, 2- and 4-byte characters; followed by more attributes and links
+        let lens: &[usize] = if level == 0 { &[128, 300] } else { &[60, 100, 127, 128, 129, 160, 200, 255, 256, 257, 300, 511, 512, 513, 1000, 1024, 1025, 2048, 2049, 5000, 20000] };
+        let units: [&[&str]; 4] = [&["a", ",", "b", ";", "c", "=", "<", ">", " ", "\"", "\\"], &["\u{1f600}", ",", "\u{1f600}", ";", "\u{1f600}"], &["\u{e9}", "\"", "\u{e9}", "\\", ",", ";"], &["\u{1f600}"]];
+        let mut di = 0u64;
+        for &len in lens {
+            for (ui, unit) in units.iter().enumerate() {
+                di += 1;
+                if di % nshards != shard {
+                    continue;
+                }
+                let mut v = String::new();
+                let mut k = 0usize;
+                while v.len() < len {
+                    v.push_str(unit[k % unit.len()]);
+                    k += 1;
+                }
+                let doc = vec![
+                    Link { target: "/wide".into(), attrs: vec![("title".into(), AttrKind::Quoted(v.clone())), ("rt".into(), AttrKind::Quoted("after".into())), ("n".into(), AttrKind::U16(3))] },
+                    Link { target: "/next".into(), attrs: vec![("rt".into(), AttrKind::Quoted("x,y;z".into())), ("p".into(), AttrKind::Plain(v.clone()))] },
+                    Link { target: v.chars().filter(|c| *c != '>').collect(), attrs: vec![("k".into(), AttrKind::Plain("end".into()))] },
+                ];
+                c16_one(rep, &doc, ui % 2 == 0);
+                rep.distinct(fnv(v.as_bytes()) ^ len as u64);
+                rep.count("wide_value_documents");
+            }
+        }
+    }
     for _ in 0..budget {
         let doc = gen_doc(&mut r, 0);
         let nl = r.bool();
@@ -994,6 +1023,32 @@ pub fn run_c18(ctx: &mut Ctx) {
                 rep.distinct(fnv(describe(&doc).as_bytes()));
                 c18_doc(rep, &doc, &mut stats, 1);
                 rep.count("numeric_attribute_documents");
+            }
+        }
+    }
+    // long texts in every text-carrying position (target, key, plain value, quoted value): a writer that
+    // cuts its output into pieces has boundaries at some multiple of some size
+    if level > 0 {
+        let mut di = 0u64;
+        for len in [1023usize, 1024, 1025, 2047, 2048, 2049, 2500, 3600, 4097, 9000] {
+            for (ui, unit) in ["t", "\u{e9}", "\u{1f600}x"].iter().enumerate() {
+                di += 1;
+                if di % ctx_nshards != shard {
+                    continue;
+                }
+                let mut text = String::new();
+                while text.len() < len {
+                    text.push_str(unit);
+                }
+                let key: String = "k".repeat(len.min(3000));
+                let doc = match ui {
+                    0 => vec![Link { target: text.clone(), attrs: vec![("rt".into(), AttrKind::Plain("a".into()))] }, Link { target: "/b".into(), attrs: vec![(key, AttrKind::U16(1))] }],
+                    1 => vec![Link { target: "/a".into(), attrs: vec![("title".into(), AttrKind::Quoted(text.clone())), ("n".into(), AttrKind::U32(2))] }, Link { target: text.clone(), attrs: vec![] }],
+                    _ => vec![Link { target: text.clone(), attrs: vec![("p".into(), AttrKind::Plain(text.clone()))] }, Link { target: "/z".into(), attrs: vec![("q".into(), AttrKind::Quoted("end".into()))] }],
+                };
+                rep.distinct(fnv(describe(&doc).as_bytes()));
+                c18_doc(rep, &doc, &mut stats, 1);
+                rep.count("long_text_documents");
             }
         }
     }
